@@ -208,12 +208,23 @@ func serializeDatetimeFromUnixNano(buf *bytes.Buffer, t int64) {
 
 func serializeString(buf *bytes.Buffer, s string) {
 	buf.Write([]byte{91, 83, 93})
-	buf.WriteString(strings.ToUpper(option.TrimSpace(s)))
+	writeEscapedKeyString(buf, strings.ToUpper(option.TrimSpace(s)))
 }
 
 func serializeCaseSensitiveString(buf *bytes.Buffer, s string) {
 	buf.Write([]byte{91, 83, 93})
-	buf.WriteString(option.TrimSpace(s))
+	writeEscapedKeyString(buf, option.TrimSpace(s))
+}
+
+// writeEscapedKeyString escapes the key separator ':' and the escape character '\\'
+// so that joined comparison keys can be split unambiguously.
+func writeEscapedKeyString(buf *bytes.Buffer, s string) {
+	for i := 0; i < len(s); i++ {
+		if s[i] == 58 || s[i] == 92 {
+			buf.WriteByte(92)
+		}
+		buf.WriteByte(s[i])
+	}
 }
 
 func serializeBoolean(buf *bytes.Buffer, b bool) {
